@@ -145,6 +145,7 @@ type FnCtx struct {
 	reachLocal map[*ssa.Alloc]heldLock
 	localBoxes map[string][]string
 	curArgs []Val
+	curBlk  *ssa.BasicBlock
 	loopDecs map[*loopInfo]string
 }
 
